@@ -194,7 +194,9 @@ func numNatPair(x *engine.X, av, bv *big.Int) {
 }
 
 func numNatUnary(x *engine.X, v *big.Int) {
-	d := func(op string) func() string { return func() string { return fmt.Sprintf("num.Nat(%s).%s", show(v), op) } }
+	d := func(op string) func() string {
+		return func() string { return fmt.Sprintf("num.Nat(%s).%s", show(v), op) }
+	}
 	guard(x, "num/n/unary", d("unary"), func() {
 		a := mustN(v)
 		eqBig(x, "num/n/FromBig", d("Big"), a, v)
@@ -322,7 +324,9 @@ func numNatPlusPair(x *engine.X, av, bv *big.Int) {
 }
 
 func numNatPlusUnary(x *engine.X, v *big.Int) {
-	d := func(op string) func() string { return func() string { return fmt.Sprintf("num.NatPlus(%s).%s", show(v), op) } }
+	d := func(op string) func() string {
+		return func() string { return fmt.Sprintf("num.NatPlus(%s).%s", show(v), op) }
+	}
 	guard(x, "num/nplus/unary", d("unary"), func() {
 		a := mustNP(v)
 		eqBig(x, "num/nplus/FromBig", d("Big"), a, v)
@@ -481,7 +485,9 @@ func eqInt(x *engine.X, key string, desc func() string, got *num.Int, want *big.
 }
 
 func numIntUnary(x *engine.X, v *big.Int) {
-	d := func(op string) func() string { return func() string { return fmt.Sprintf("num.Int(%s).%s", show(v), op) } }
+	d := func(op string) func() string {
+		return func() string { return fmt.Sprintf("num.Int(%s).%s", show(v), op) }
+	}
 	abs := new(big.Int).Abs(v)
 	guard(x, "num/z/unary", d("unary"), func() {
 		a := mustZ(v)
